@@ -183,6 +183,11 @@ func (s *Scheduler) run(now time.Time) {
 	})
 	for _, e := range entries {
 		t := e.Next
+		if t.IsZero() {
+			// The schedule has no activation time at all (e.g. "0 0 30 2 *"):
+			// cron reports that as the zero time, which must not count as due.
+			continue
+		}
 		if t.After(now) {
 			break
 		}
